@@ -59,7 +59,7 @@ func opsText(ops []int) string {
 	for i, o := range ops {
 		s[i] = opName(o)
 	}
-	return strings.Join(s, " ")
+	return strings.Join(s, ",") // no blanks: the text is part of violation keys
 }
 
 const failVersion = "c15-refuse"
